@@ -144,6 +144,9 @@ impl Prop for C14 {
         } else if !c.pad_lines.is_empty() {
             obs.hit("input_with_ignored_padding_lines");
         }
+        if !c.hand_queue && c.line_style / 3 != 0 && c.repeat <= 1 && c.trace.len() >= 2 {
+            obs.hit("input_lines_in_scrambled_order");
+        }
         // both directions busy for more than a second
         let span = c.trace.last().map(|x| x.0).unwrap_or(0);
         if span > 1_000_000_000 && sent >= 8 && recv >= 8 {
@@ -234,7 +237,7 @@ impl Prop for C14 {
     }
 
     fn required_classes() -> Vec<&'static str> {
-        vec!["burst_of_equal_timestamps", "eleven_packets_within_100ms", "zero_delay", "hand_built_queue", "sustained_two_way_traffic_over_a_second", "input_with_ignored_padding_lines", "more_than_250000_packets", "max_trace_length_usize_max"]
+        vec!["burst_of_equal_timestamps", "eleven_packets_within_100ms", "zero_delay", "hand_built_queue", "sustained_two_way_traffic_over_a_second", "input_with_ignored_padding_lines", "more_than_250000_packets", "max_trace_length_usize_max", "input_lines_in_scrambled_order"]
     }
 
     fn assumptions() -> Vec<&'static str> {
